@@ -145,6 +145,9 @@ func (ba *BlockAssembler) Seal(header *types.Header, txProduct *account.TxsProdu
 		log.Debug("snapshot new term", "deputies", log.Lazy{Fn: func() string {
 			return deputies.String()
 		}})
+	} else {
+		// Only snapshot block has deputy nodes. Otherwise the validator would accept any deputy root which the miner put in header, because it copies the header
+		newHeader.DeputyRoot = nil
 	}
 
 	return block
